@@ -186,8 +186,8 @@ func init() {
 		}
 	}
 	Register(&Prop{
-		ID:   "C03",
-		Rule: "journals rendered from a model of grammar G (DESIGN 4.2): every single feature and feature pairs forced on a plain background (with and without neighbour entries), then random journals of 2-6 entries with <=3 non-plain features per entry; clean pool excludes the feature sets listed as findings, known pool forces exactly those. Oracle: parser.Parse reports no error, the server publishes no code-less diagnostic, and the projection of the AST equals the model (exact rationals). Non-trivial = contains a transaction with >=1 posting; distinct by text hash.",
+		ID:    "C03",
+		Rule:  "journals rendered from a model of grammar G (DESIGN 4.2): every single feature and feature pairs forced on a plain background (with and without neighbour entries), then random journals of 2-6 entries with <=3 non-plain features per entry; clean pool excludes the feature sets listed as findings, known pool forces exactly those. Oracle: parser.Parse reports no error, the server publishes no code-less diagnostic, and the projection of the AST equals the model (exact rationals). Non-trivial = contains a transaction with >=1 posting; distinct by text hash.",
 		Notes: []string{"the model renderer and the comparison are the trusted base", "features outside DESIGN 4.2 are not generated", "a new defect that needs a listed known-bad feature to show is masked"},
 		Cases: func(tier string) int64 {
 			sizes()
